@@ -48,6 +48,8 @@ class Receiver:
         self.w = inst.ref.pw_scalar(pw)
         s = inst.new(side, pw, ids, x)
         self.msg = s.start()
+        xo = T.read_scalar(inst, s)
+        self.xo = x if xo is None else xo      # scalar the instance reports (C11 judges the sampler)
         self.blob = s.serialize() if restored else None
         self.proto = inst.restore(side, self.blob) if restored else s
         self.used_proto = False
@@ -69,7 +71,7 @@ class Receiver:
         return got[1] if got[0] == "ok" else None
 
     def ref(self, delivered):
-        r = RS.finish(self.inst.rp, self.side, self.pw, self.w, self.ids, self.x, delivered)
+        r = RS.finish(self.inst.rp, self.side, self.pw, self.w, self.ids, self.xo, delivered)
         return r[1] if r[0] == "key" else None
 
     def desc(self):
@@ -96,6 +98,11 @@ def tamper_menu(R, rp, msg, recv_msg, others, quick_bits=False, quick_trunc=Fals
     out += [("extend", msg + b"\x00"), ("extend", msg + b"\xff"), ("extend", msg + payload), ("extend", msg + recv_msg[1:]),
             ("extend", msg + msg), ("extend", msg + b"\x00" * len(payload)), ("prepend", b"\x00" + msg), ("prepend", label + b"\x00" + payload),
             ("prepend", label + b"\x00" + payload[:-1])]
+    if payload[:1] == b"\x00":
+        # the same integer with leading zero bytes removed (a decoder that forgets the exact-length rule accepts it)
+        out.append(("strip-zero", label + payload[1:]))
+        out.append(("strip-zero", label + (payload.lstrip(b"\x00") or b"\x00")))
+    out.append(("pad-zero", label + b"\x00\x00" + payload))
     for v in range(256):
         if bytes([v]) != label:
             out.append(("side", bytes([v]) + payload))
@@ -162,6 +169,27 @@ def _eval_job(job):
         if k is not None:
             out.append((i, k))
     return eid, which, out, hi - lo
+
+
+def leading_zero_scalars(inst, pw):
+    """two scalars (for side A / B resp. S / S) whose blinded element has a leading zero byte, found with the reference arithmetic"""
+    R, rp = inst.ref, inst.rp
+    w = R.pw_scalar(pw)
+    found = {"A": [], "B": [], "S": []}
+    for side in ("A", "B", "S"):
+        e = R.mul(rp.blind(side), w)
+        for x in range(0, min(R.q, 8000)):
+            if R.enc(e)[0] == 0:
+                found[side].append(x)
+                if len(found[side]) == 2:
+                    break
+            e = R.add(e, R.base())
+    out = {}
+    if found["A"] and found["B"]:
+        out["AB"] = (found["A"][0], found["B"][0])
+    if len(found["S"]) == 2:
+        out["SS"] = tuple(found["S"])
+    return out
 
 
 def add_menu_experiment(name, flavour, pw, x, y, restored, tier, acc):
@@ -282,6 +310,7 @@ def mk_ref(spec):
     name, side, pw, ids, x, restored, clone = spec
     inst = T.get(name)
     w = inst.ref.pw_scalar(pw)
+    x = C.session_facts(inst, side, pw, ids, x)[0]
 
     def f(delivered):
         r = RS.finish(inst.rp, side, pw, w, ids, x, delivered)
@@ -418,15 +447,18 @@ def run(tier, seed):
     quick = tier == "quick"
     del EXPERIMENTS[:]
     # adversary menu with join
-    for name in ["T23", "T29", "E37", "E109"] + T.SHIPPED + ([] if quick else ["T509", "T1543", "E229"]):
+    for name in ["T23", "T29", "T509", "E37", "E109"] + T.SHIPPED + ([] if quick else ["T1543", "E229"]):
         inst, why = T.try_get(name)
         if inst is None:
             acc.degrade("%s unavailable: %s" % (name, why))
             continue
         q = inst.q
         pairs = [(3 % q, 5 % q)] if not inst.small else [(3 % q, 5 % q), (0, 1), (q - 1, 0)]
+        lz = leading_zero_scalars(inst, b"pw") if (inst.kind == "int" and inst.ref.esize > 1) else {}
+        if lz:
+            acc.note("%s: extra base exchanges %s whose blinded elements start with a zero byte (strip-zero faults)" % (name, lz))
         for flavour in ("AB", "SS"):
-            for (x, y) in pairs:
+            for (x, y) in pairs + ([lz[flavour]] if flavour in lz else []):
                 for restored in ((False, True) if (inst.small or not quick or name == "ParamsEd25519") else (False,)):
                     add_menu_experiment(name, flavour, b"pw", x, y, restored, tier, acc)
     # every string
